@@ -158,11 +158,18 @@ Proof.
     exists s'. rewrite E3. now rewrite <- app_assoc.
 Qed.
 
-Lemma replace_file_quiet lines fs sc :
-  no_faults sc = true -> f_new fs = None ->
+(** no fault among the effects (whether or not the unlink would fail: it is not
+    attempted once the rename has happened) *)
+Definition eff_quiet (sc : sched) : bool := forallb negb (s_eff sc).
+
+Lemma no_faults_eff_quiet sc : no_faults sc = true -> eff_quiet sc = true.
+Proof. unfold no_faults. intros E. apply andb_prop in E. tauto. Qed.
+
+Lemma replace_file_effquiet lines fs sc :
+  eff_quiet sc = true -> f_new fs = None ->
   replace_file lines fs sc = (Ok tt, mkfs (Some lines) None).
 Proof.
-  unfold no_faults. intros Hq Hn. apply andb_true_iff in Hq. destruct Hq as [Hq Hu].
+  unfold eff_quiet. intros Hq Hn.
   unfold replace_file.
   destruct (next_quiet _ Hq) as [E1 E2]. destruct (next (s_eff sc)) as [fo s1].
   cbn in E1, E2. subst fo.
@@ -172,6 +179,11 @@ Proof.
   destruct (next_quiet _ E4) as [E5 _]. destruct (next s3) as [fr s4]. cbn in E5. subst fr.
   reflexivity.
 Qed.
+
+Lemma replace_file_quiet lines fs sc :
+  no_faults sc = true -> f_new fs = None ->
+  replace_file lines fs sc = (Ok tt, mkfs (Some lines) None).
+Proof. intros Hq. apply replace_file_effquiet. now apply no_faults_eff_quiet. Qed.
 
 (** * 2. update_file is safe under EVERY environment and EVERY fault schedule *)
 
@@ -454,6 +466,16 @@ Definition no_collision (Hk : list str -> str) (local : list str) (vs : list (li
 (** the mirror serves, under each patch name, the script of that step *)
 Definition patches_published (e : env) (steps : list pstep) : bool :=
   forallb (fun s => result_eqb strs_eqb (e_patch e (ps_name s)) (Ok (ps_script s))) steps.
+
+Definition patch_good (e : env) (s : pstep) : bool :=
+  result_eqb strs_eqb (e_patch e (ps_name s)) (Ok (ps_script s)).
+
+(** the patch cannot be fetched, or what is fetched does not have the recorded digest *)
+Definition patch_bad (Hk : list str -> str) (e : env) (s : pstep) : bool :=
+  match e_patch e (ps_name s) with
+  | Err _ => true
+  | Ok c => negb (str_eqb (Hk c) (Hk (ps_script s)))
+  end.
 
 Lemma chain_from_spec local steps : forall v sfx,
   chain_from local v steps = Some sfx ->
@@ -748,6 +770,11 @@ Lemma download_file_commit e fs sc :
   match e_full e with Ok lines => commit lines fs sc | Err x => (Err x, fs) end.
 Proof. reflexivity. Qed.
 
+Lemma commit_effquiet lines fs sc :
+  eff_quiet sc = true -> f_new fs = None ->
+  commit lines fs sc = (Ok lines, mkfs (Some lines) None).
+Proof. intros Hq Hn. unfold commit. now rewrite replace_file_effquiet. Qed.
+
 Lemma commit_quiet lines fs sc :
   no_faults sc = true -> f_new fs = None ->
   commit lines fs sc = (Ok lines, mkfs (Some lines) None).
@@ -773,13 +800,18 @@ Notation publishes := (publishes is_space is_linebreak).
 Notation index_records := (index_records is_space is_linebreak).
 Notation run_fields := (run_fields is_space is_linebreak).
 
-Lemma download_file_quiet e fs sc vn :
-  full_published e vn = true -> no_faults sc = true -> f_new fs = None ->
+Lemma download_file_effquiet e fs sc vn :
+  full_published e vn = true -> eff_quiet sc = true -> f_new fs = None ->
   download_file e fs sc = (Ok vn, mkfs (Some vn) None).
 Proof.
   unfold full_published, download_file. intros Hf Hq Hn.
-  apply result_strs_eqb_eq in Hf. rewrite Hf. now rewrite replace_file_quiet.
+  apply result_strs_eqb_eq in Hf. rewrite Hf. now rewrite replace_file_effquiet.
 Qed.
+
+Lemma download_file_quiet e fs sc vn :
+  full_published e vn = true -> no_faults sc = true -> f_new fs = None ->
+  download_file e fs sc = (Ok vn, mkfs (Some vn) None).
+Proof. intros Hf Hq. apply download_file_effquiet; [assumption|now apply no_faults_eff_quiet]. Qed.
 
 Lemma current_ok_parts prefix Hk vn px :
   current_ok is_space prefix Hk vn px = true ->
@@ -846,6 +878,71 @@ Proof.
 Qed.
 
 (** ** update_converges, once the index has been read *)
+
+(** what has to be served intact for this local content: nothing if it is current,
+    the patches of its chain if it is in the history, else the full file *)
+Definition needed_served (e : env) (local vn v0 : list str) (steps : list pstep) : bool :=
+  if lines_eqb local vn then true
+  else match chain_from local v0 steps with
+       | Some sfx => forallb (patch_good e) sfx
+       | None => full_published e vn
+       end.
+
+Theorem update_converges_fields_gen e fs sc local paras v0 steps px :
+  let k := choose_kind (concat paras) in
+  let vn := current (versions v0 steps) in
+  f_new fs = None -> f_local fs = Some local ->
+  concat paras = px_fields px ->
+  hash_avail e k = true ->
+  publishes (prefix_of k) (H k) v0 steps px = true ->
+  needed_served e local vn v0 steps = true ->
+  no_collision (H k) local (versions v0 steps) = true ->
+  eff_quiet sc = true ->
+  update_with_index e (IndexFields paras) local fs sc = (Ok vn, mkfs (Some vn) None).
+Proof.
+  intros k vn Hn Hl Hfields Hav Hpub Hneed Hnc Hq.
+  destruct (publishes_parts _ _ _ _ _ Hpub) as (Pchain & Pdist & Prec).
+  unfold Update.update_with_index. fold k. rewrite Hav. cbn [negb].
+  rewrite Hfields. rewrite (run_fields_published k local v0 steps steps px Prec).
+  fold vn.
+  assert (Hvn : vn = final v0 steps) by apply current_versions.
+  destruct (str_eqb (H k local) (H k vn)) eqn:Eup.
+  - (* up to date *)
+    pose proof (no_collision_current _ _ _ _ Hnc Eup) as E. fold vn in E. subst local.
+    destruct fs as [l n]. cbn in Hn, Hl. now subst.
+  - unfold needed_served in Hneed.
+    destruct (lines_eqb local vn) eqn:Elv.
+    { apply strs_eqb_eq in Elv. subst local. now rewrite str_eqb_refl in Eup. }
+    rewrite (walk_chain_from H k) by assumption.
+    destruct (chain_from local v0 steps) as [sfx|] eqn:Ecf; cbn [st_remote st_apply st_hashes].
+    + destruct (chain_from_spec _ _ _ _ Ecf Pchain) as (Cc & Cf & Cne & Cin).
+      assert (is_nil (map ps_name sfx) = false) as -> by now destruct sfx.
+      cbn [orb].
+      assert (forallb (fun n => dict_has n (digest_table H k steps ++ [])) (map ps_name sfx) = true)
+        as ->.
+      { apply forallb_forall. intros n Hin. apply in_map_iff in Hin. destruct Hin as (s & <- & Hs).
+        unfold dict_has. now rewrite (digest_table_get H k) by auto. }
+      cbn [negb].
+      rewrite (apply_patches_chain is_digit digit_val H Hdc k e _ sfx local Cc).
+      2: { intros s Hs. rewrite forallb_forall in Hneed.
+           apply result_strs_eqb_eq. now apply Hneed. }
+      2: { intros s Hs. apply (digest_table_get H k); auto. }
+      rewrite Cf, <- Hvn. rewrite str_eqb_refl. cbn [negb].
+      now rewrite replace_file_effquiet.
+    + cbn [is_nil orb]. now apply download_file_effquiet.
+Qed.
+
+Lemma needed_served_all e local vn v0 steps :
+  patches_published e steps = true -> full_published e vn = true ->
+  chain_ok v0 steps = true ->
+  needed_served e local vn v0 steps = true.
+Proof.
+  intros Hp Hf Hc. unfold needed_served. destruct (lines_eqb local vn); [reflexivity|].
+  destruct (chain_from local v0 steps) as [sfx|] eqn:E; [|assumption].
+  destruct (chain_from_spec _ _ _ _ E Hc) as (_ & _ & _ & Hin).
+  unfold patches_published in Hp. rewrite forallb_forall in *. intros s Hs. apply Hp. now apply Hin.
+Qed.
+
 Theorem update_converges_fields e fs sc local paras v0 steps px :
   let k := choose_kind (concat paras) in
   let vn := current (versions v0 steps) in
@@ -860,32 +957,10 @@ Theorem update_converges_fields e fs sc local paras v0 steps px :
   update_with_index e (IndexFields paras) local fs sc = (Ok vn, mkfs (Some vn) None).
 Proof.
   intros k vn Hn Hl Hfields Hav Hpub Hpat Hfull Hnc Hq.
-  destruct (publishes_parts _ _ _ _ _ Hpub) as (Pchain & Pdist & Prec).
-  unfold Update.update_with_index. fold k. rewrite Hav. cbn [negb].
-  rewrite Hfields. rewrite (run_fields_published k local v0 steps steps px Prec).
-  fold vn.
-  assert (Hvn : vn = final v0 steps) by apply current_versions.
-  destruct (str_eqb (H k local) (H k vn)) eqn:Eup.
-  - (* up to date *)
-    pose proof (no_collision_current _ _ _ _ Hnc Eup) as E. fold vn in E. subst local.
-    destruct fs as [l n]. cbn in Hn, Hl. now subst.
-  - rewrite (walk_chain_from H k) by assumption.
-    destruct (chain_from local v0 steps) as [sfx|] eqn:Ecf; cbn [st_remote st_apply st_hashes].
-    + destruct (chain_from_spec _ _ _ _ Ecf Pchain) as (Cc & Cf & Cne & Cin).
-      assert (is_nil (map ps_name sfx) = false) as -> by now destruct sfx.
-      cbn [orb].
-      assert (forallb (fun n => dict_has n (digest_table H k steps ++ [])) (map ps_name sfx) = true)
-        as ->.
-      { apply forallb_forall. intros n Hin. apply in_map_iff in Hin. destruct Hin as (s & <- & Hs).
-        unfold dict_has. now rewrite (digest_table_get H k) by auto. }
-      cbn [negb].
-      rewrite (apply_patches_chain is_digit digit_val H Hdc k e _ sfx local Cc).
-      2: { intros s Hs. unfold patches_published in Hpat. rewrite forallb_forall in Hpat.
-           apply result_strs_eqb_eq. apply Hpat. now apply Cin. }
-      2: { intros s Hs. apply (digest_table_get H k); auto. }
-      rewrite Cf, <- Hvn. rewrite str_eqb_refl. cbn [negb].
-      now rewrite replace_file_quiet.
-    + cbn [is_nil orb]. now apply download_file_quiet.
+  apply (update_converges_fields_gen e fs sc local paras v0 steps px); try assumption.
+  - apply needed_served_all; try assumption.
+    now destruct (publishes_parts _ _ _ _ _ Hpub) as (Pchain & _).
+  - now apply no_faults_eff_quiet.
 Qed.
 
 (** ** update_converges *)
@@ -1176,16 +1251,6 @@ End Unusable.
 
 (** * 7c. Honest -Current, anything else arbitrary: every fault schedule, every
     patch corruption; and the faults that MUST surface as an error *)
-
-Definition patch_good (e : env) (s : pstep) : bool :=
-  result_eqb strs_eqb (e_patch e (ps_name s)) (Ok (ps_script s)).
-
-(** the patch cannot be fetched, or what is fetched does not have the recorded digest *)
-Definition patch_bad (Hk : list str -> str) (e : env) (s : pstep) : bool :=
-  match e_patch e (ps_name s) with
-  | Err _ => true
-  | Ok c => negb (str_eqb (Hk c) (Hk (ps_script s)))
-  end.
 
 Lemma dict_has_in n L : dict_has n L = true -> exists kv, In kv L /\ fst kv = n.
 Proof.
@@ -1879,3 +1944,805 @@ Proof.
   - cbn [flat_map] in E1. apply inj_line_app in E1. destruct E1 as [-> E1].
     f_equal. apply IH. now f_equal.
 Qed.
+
+(** * 10. The model meets the whole verdict table of the Spec on an intact index
+
+    For a repository that publishes its history, whatever combination of faults
+    the scenario lists — any set of published patches bad (missing, or with a
+    digest other than the recorded one), the full file unavailable, any schedule
+    of open / write / close / rename / unlink faults — and wherever the local
+    copy is, the run of the model satisfies [property_holds], i.e. exactly what
+    [holds] demands of the implementation: converge where it must, fail safely
+    where it must, one of the two elsewhere. *)
+
+Fixpoint patches_as_scenario (Hk : list str -> str) (e : env) (pf : list nat) (j : nat)
+    (steps : list pstep) : bool :=
+  match steps with
+  | [] => true
+  | s :: r => (if existsb (Nat.eqb j) pf then patch_bad Hk e s else patch_good e s)
+              && patches_as_scenario Hk e pf (S j) r
+  end.
+
+Definition full_as_scenario (e : env) (vn : list str) (ff : bool) : bool :=
+  if ff then negb (is_ok (e_full e)) else full_published e vn.
+
+Lemma positions_ge l h : forall i x, In x (positions l h i) -> i <= x.
+Proof.
+  induction h as [|v h IH]; intros i x Hin; [destruct Hin|].
+  cbn [positions] in Hin. apply in_app_or in Hin. destruct Hin as [Hin|Hin].
+  - destruct (lines_eqb v l); [|destruct Hin]. destruct Hin as [<-|[]]. lia.
+  - apply IH in Hin. lia.
+Qed.
+
+Lemma positions_chain local steps : forall v i,
+  lines_eqb (final v steps) local = false ->
+  match chain_from local v steps with
+  | None => positions local (versions v steps) i = []
+  | Some sfx => exists first rest,
+      positions local (versions v steps) i = (i + first) :: rest
+      /\ sfx = skipn first steps /\ first < List.length steps
+      /\ (forall x, In x rest -> i + first < x)
+  end.
+Proof.
+  induction steps as [|s r IH]; intros v i Hfin.
+  - cbn [final] in Hfin. cbn [chain_from versions positions]. now rewrite Hfin.
+  - cbn [final] in Hfin. cbn [chain_from versions positions].
+    destruct (lines_eqb v local) eqn:Ev.
+    + exists 0, (positions local (versions (ps_new s) r) (S i)). repeat split.
+      * cbn [app]. now rewrite Nat.add_0_r.
+      * cbn [List.length]. lia.
+      * intros x Hx. apply positions_ge in Hx. lia.
+    + cbn [app]. specialize (IH (ps_new s) (S i) Hfin).
+      destruct (chain_from local (ps_new s) r) as [sfx|]; [|exact IH].
+      destruct IH as (first & rest & E1 & E2 & E3 & E4).
+      exists (S first), rest. repeat split.
+      * rewrite E1. f_equal. lia.
+      * exact E2.
+      * cbn [List.length]. lia.
+      * intros x Hx. apply E4 in Hx. lia.
+Qed.
+
+Lemma last_cons_in {A} (l : list A) a : In (last (a :: l) a) (a :: l).
+Proof.
+  revert a. induction l as [|b l IH]; intros a; [now left|].
+  change (last (a :: b :: l) a) with (last (b :: l) a).
+  right. destruct l as [|c l]; [now left|].
+  specialize (IH b). change (last (b :: c :: l) a) with (last (c :: l) a).
+  change (last (b :: c :: l) b) with (last (c :: l) b) in IH.
+  assert (last (c :: l) a = last (c :: l) b) as ->; [|exact IH].
+  clear. revert c. induction l as [|d l IH]; intros c; [reflexivity|].
+  change (last (c :: d :: l) a) with (last (d :: l) a).
+  change (last (c :: d :: l) b) with (last (d :: l) b). apply IH.
+Qed.
+
+Section Pas.
+Variable Hk : list str -> str.
+Variable e : env.
+Variable pf : list nat.
+
+Lemma pas_skipn steps : forall j n,
+  patches_as_scenario Hk e pf j steps = true ->
+  patches_as_scenario Hk e pf (j + n) (skipn n steps) = true.
+Proof.
+  induction steps as [|s r IH]; intros j n Hp.
+  - now rewrite skipn_nil.
+  - destruct n as [|n]; [now rewrite Nat.add_0_r|].
+    cbn [patches_as_scenario] in Hp. apply andb_prop in Hp. destruct Hp as [_ Hp].
+    cbn [skipn]. replace (j + S n) with (S j + n) by lia. now apply IH.
+Qed.
+
+Lemma pas_good_or_bad sfx : forall j,
+  patches_as_scenario Hk e pf j sfx = true ->
+  forallb (fun s => patch_good e s || patch_bad Hk e s) sfx = true.
+Proof.
+  induction sfx as [|s r IH]; intros j Hp; [reflexivity|].
+  cbn [patches_as_scenario] in Hp. apply andb_prop in Hp. destruct Hp as [Hs Hp].
+  cbn [forallb]. rewrite (IH _ Hp), andb_true_r.
+  destruct (existsb (Nat.eqb j) pf); rewrite Hs; [apply orb_true_r|reflexivity].
+Qed.
+
+Lemma pas_bad sfx : forall j x,
+  patches_as_scenario Hk e pf j sfx = true ->
+  In x pf -> j <= x -> x < j + List.length sfx ->
+  existsb (patch_bad Hk e) sfx = true.
+Proof.
+  induction sfx as [|s r IH]; intros j x Hp Hin H1 H2; [cbn in H2; lia|].
+  cbn [patches_as_scenario] in Hp. apply andb_prop in Hp. destruct Hp as [Hs Hp].
+  cbn [existsb]. destruct (Nat.eq_dec j x) as [->|Hne].
+  - assert (existsb (Nat.eqb x) pf = true) as Hx.
+    { apply existsb_exists. exists x. split; [assumption|apply Nat.eqb_refl]. }
+    rewrite Hx in Hs. now rewrite Hs.
+  - rewrite (IH (S j) x Hp Hin); [apply orb_true_r|lia|cbn [List.length] in H2; lia].
+Qed.
+
+Lemma pas_all_good sfx : forall j,
+  patches_as_scenario Hk e pf j sfx = true ->
+  existsb (fun x => j <=? x) pf = false ->
+  forallb (patch_good e) sfx = true.
+Proof.
+  induction sfx as [|s r IH]; intros j Hp Hno; [reflexivity|].
+  cbn [patches_as_scenario] in Hp. apply andb_prop in Hp. destruct Hp as [Hs Hp].
+  assert (Hnone : forall m, j <= m -> existsb (Nat.eqb m) pf = false).
+  { intros m Hm. destruct (existsb (Nat.eqb m) pf) eqn:E; [|reflexivity].
+    apply existsb_exists in E. destruct E as (x & Hx & Ex). apply Nat.eqb_eq in Ex. subst x.
+    assert (existsb (fun x => j <=? x) pf = true) as Hc; [|congruence].
+    apply existsb_exists. exists m. split; [assumption|now apply Nat.leb_le]. }
+  rewrite (Hnone j) in Hs by lia. cbn [forallb]. rewrite Hs. cbn [andb].
+  apply (IH (S j) Hp).
+  destruct (existsb (fun x => S j <=? x) pf) eqn:E; [|reflexivity].
+  apply existsb_exists in E. destruct E as (x & Hx & Ex). apply Nat.leb_le in Ex.
+  assert (existsb (Nat.eqb x) pf = true) as Hc; [|rewrite (Hnone x) in Hc by lia; discriminate].
+  apply existsb_exists. exists x. split; [assumption|apply Nat.eqb_refl].
+Qed.
+
+End Pas.
+
+Lemma failed_safely_unchanged s x fs :
+  f_new fs = None -> sn_local s = f_local fs ->
+  failed_safely s (observe (Err x, fs)) = true.
+Proof.
+  intros Hn Hl. unfold failed_safely, observe. cbn. rewrite Hn, Hl. cbn.
+  destruct (f_local fs); cbn; [now rewrite str_eqb_refl|reflexivity].
+Qed.
+
+Lemma fs_fault_possible_quiet eff : fs_fault_possible eff false = false -> forallb negb eff = true.
+Proof.
+  unfold fs_fault_possible. rewrite orb_false_r.
+  induction eff as [|x eff IH]; [reflexivity|]. cbn. destruct x; [discriminate|]. exact IH.
+Qed.
+
+Section Intact.
+Variables is_space is_linebreak is_digit : N -> bool.
+Variable digit_val : N -> N.
+Variable H : hkind -> list str -> str.
+Hypothesis Hlb10 : is_linebreak 10 = true.
+Hypothesis Hdc : digit_class_ok is_digit digit_val.
+Notation update_with_index := (update_with_index is_space is_linebreak is_digit digit_val H).
+Notation update_file := (update_file is_space is_linebreak is_digit digit_val H).
+Notation publishes := (publishes is_space is_linebreak).
+
+Lemma update_uptodate e fs sc paras v0 steps px :
+  let k := choose_kind (concat paras) in
+  let vn := current (versions v0 steps) in
+  concat paras = px_fields px ->
+  hash_avail e k = true ->
+  publishes (prefix_of k) (H k) v0 steps px = true ->
+  update_with_index e (IndexFields paras) vn fs sc = (Ok vn, fs).
+Proof.
+  intros k vn Hfields Hav Hpub.
+  destruct (publishes_parts is_space is_linebreak _ _ _ _ _ Hpub) as (Pchain & Pdist & Prec).
+  unfold Update.update_with_index. fold k. rewrite Hav. cbn [negb]. rewrite Hfields.
+  rewrite (run_fields_published is_space is_linebreak H Hlb10 k vn v0 steps steps px Prec).
+  fold vn. now rewrite str_eqb_refl.
+Qed.
+
+Lemma update_foreign_downloads e fs sc local paras v0 steps px :
+  let k := choose_kind (concat paras) in
+  let vn := current (versions v0 steps) in
+  concat paras = px_fields px ->
+  hash_avail e k = true ->
+  publishes (prefix_of k) (H k) v0 steps px = true ->
+  no_collision (H k) local (versions v0 steps) = true ->
+  lines_eqb local vn = false ->
+  chain_from local v0 steps = None ->
+  update_with_index e (IndexFields paras) local fs sc = download_file e fs sc.
+Proof.
+  intros k vn Hfields Hav Hpub Hnc Hloc Ecf.
+  destruct (publishes_parts is_space is_linebreak _ _ _ _ _ Hpub) as (Pchain & Pdist & Prec).
+  unfold Update.update_with_index. fold k. rewrite Hav. cbn [negb]. rewrite Hfields.
+  rewrite (run_fields_published is_space is_linebreak H Hlb10 k local v0 steps steps px Prec).
+  fold vn.
+  destruct (str_eqb (H k local) (H k vn)) eqn:Eup.
+  { pose proof (no_collision_current _ _ _ _ Hnc Eup) as E. fold vn in E. subst local.
+    unfold lines_eqb in Hloc. now rewrite strs_eqb_refl in Hloc. }
+  rewrite (walk_chain_from H k) by assumption. rewrite Ecf. reflexivity.
+Qed.
+
+Theorem update_meets_spec_intact e fs sc paras v0 steps px pf ff :
+  let k := choose_kind (concat paras) in
+  let vn := current (versions v0 steps) in
+  let s := mkscn (versions v0 steps) (f_local fs) IdxIntact pf ff (s_eff sc) (s_unlink sc) in
+  f_new fs = None ->
+  read_index is_space (e_index e) = Ok (IndexFields paras) ->
+  concat paras = px_fields px ->
+  hash_avail e k = true ->
+  publishes (prefix_of k) (H k) v0 steps px = true ->
+  patches_as_scenario (H k) e pf 0 steps = true ->
+  forallb (fun j => j <? List.length steps) pf = true ->
+  full_as_scenario e vn ff = true ->
+  match f_local fs with
+  | Some local => no_collision (H k) local (versions v0 steps)
+  | None => true
+  end = true ->
+  (forall x, H k x = H k vn -> x = vn) ->
+  property_holds s (observe (update_file e fs sc)) = true.
+Proof.
+  intros k vn s Hn Hidx Hfields Hav Hpub Hpas Hpf Hfull Hnc Hinj.
+  destruct (publishes_parts is_space is_linebreak _ _ _ _ _ Hpub) as (Pchain & Pdist & Prec).
+  (* the premises of the fault theorems *)
+  assert (Hkind : kind_of is_space e = k) by (unfold kind_of; now rewrite Hidx).
+  assert (Hhon : index_current_honest is_space H e vn (px_sep px) (px_cur_size px) = true).
+  { unfold index_current_honest. rewrite Hidx. cbv zeta. fold k. rewrite Hfields.
+    unfold UpdateSpec.index_records in Prec.
+    repeat (apply andb_prop in Prec; let X := fresh "X" in destruct Prec as [Prec X]).
+    exact X8. }
+  assert (Hfh : full_honest e vn = true).
+  { unfold full_as_scenario in Hfull. unfold full_honest. destruct ff.
+    - destruct (e_full e); [discriminate|reflexivity].
+    - unfold full_published in Hfull. apply result_strs_eqb_eq in Hfull. rewrite Hfull.
+      unfold lines_eqb. apply strs_eqb_refl. }
+  assert (Hinj' : forall x, H (kind_of is_space e) x = H (kind_of is_space e) vn -> x = vn)
+    by (rewrite Hkind; exact Hinj).
+  assert (Hcur : current (sn_hist s) = vn) by reflexivity.
+  (* "one of the two": every fault schedule, every patch fault *)
+  pose proof (update_fault_safe_converges_spec is_space is_linebreak is_digit digit_val H
+                e fs sc vn _ _ s Hn Hhon Hfh Hinj' Hcur eq_refl eq_refl) as HE.
+  cbv zeta in HE.
+  (* a certain write fault *)
+  assert (HW : match f_local fs with Some local => negb (lines_eqb local vn) | None => true end = true ->
+               fs_fault_certain vn (s_eff sc) = true ->
+               failed_safely s (observe (update_file e fs sc)) = true).
+  { intros A B.
+    exact (update_write_fault_fails_spec is_space is_linebreak is_digit digit_val H
+             e fs sc vn _ _ s Hn Hhon Hfh Hinj' A B eq_refl eq_refl). }
+  unfold property_holds, verdict_of. cbn [sn_hist sn_local sn_index sn_pfaults sn_full_fault sn_eff sn_unlink s].
+  fold vn.
+  destruct (f_local fs) as [local|] eqn:Hl.
+  - (* a local copy exists *)
+    rewrite (update_file_with_index is_space is_linebreak is_digit digit_val H e fs sc local _ Hl Hidx) in *.
+    destruct (lines_eqb local vn) eqn:Ecur.
+    + (* it is current *)
+      apply strs_eqb_eq in Ecur. subst local.
+      pose proof (update_uptodate e fs sc paras v0 steps px Hfields Hav Hpub) as Hu.
+      fold vn in Hu. rewrite Hu.
+      assert (Hc : converged s (observe (Ok vn, fs)) = true).
+      { destruct fs as [l n]. cbn in Hn, Hl. subst. now apply converged_intro. }
+      destruct (fs_fault_possible _ _); rewrite Hc; reflexivity.
+    + destruct (fs_fault_certain vn (s_eff sc)) eqn:Ecert.
+      { apply HW; reflexivity. }
+      assert (Hfin : lines_eqb (final v0 steps) local = false).
+      { rewrite <- (current_versions steps v0). fold vn. unfold lines_eqb in *.
+        destruct (strs_eqb vn local) eqn:E; [|reflexivity].
+        apply strs_eqb_eq in E. subst local. now rewrite strs_eqb_refl in Ecur. }
+      pose proof (positions_chain local steps v0 0 Hfin) as Hpos.
+      destruct (chain_from local v0 steps) as [sfx|] eqn:Ecf.
+      * destruct Hpos as (first & rest & Epos & Esfx & Hlt & Hrest). cbn [plus] in Epos, Hrest.
+        rewrite Epos.
+        pose proof (pas_skipn (H k) e pf steps 0 first Hpas) as Hpas'.
+        cbn [plus] in Hpas'. rewrite <- Esfx in Hpas'.
+        assert (Hlen : first + List.length sfx = List.length steps).
+        { rewrite Esfx, skipn_length. lia. }
+        destruct (existsb (fun j => last (first :: rest) first <=? j) pf) eqn:E1.
+        -- (* a bad patch that cannot be avoided *)
+           apply existsb_exists in E1. destruct E1 as (x & Hx & Ex). apply Nat.leb_le in Ex.
+           assert (first <= last (first :: rest) first).
+           { destruct (last_cons_in rest first) as [<-|Hin]; [lia|]. apply Hrest in Hin. lia. }
+           rewrite forallb_forall in Hpf. pose proof (Hpf x Hx) as Hxn. apply Nat.ltb_lt in Hxn.
+           destruct (update_garbled_patch_raises is_space is_linebreak is_digit digit_val H Hlb10 Hdc
+                       e fs sc local paras v0 steps px sfx Hfields Hav Hpub Hnc Ecur Ecf
+                       (pas_good_or_bad _ _ _ _ _ Hpas')
+                       (pas_bad _ _ _ sfx first x Hpas' Hx ltac:(lia) ltac:(lia))) as [y Ey].
+           rewrite Ey. now apply failed_safely_unchanged.
+        -- destruct (existsb (fun j => first <=? j) pf) eqn:E2; [exact HE|].
+           destruct (fs_fault_possible (s_eff sc) false) eqn:E3; [exact HE|].
+           rewrite (update_converges_fields_gen is_space is_linebreak is_digit digit_val H Hlb10 Hdc
+                      e fs sc local paras v0 steps px); try assumption.
+           ++ now apply converged_intro.
+           ++ unfold needed_served. fold vn. rewrite Ecur, Ecf.
+              exact (pas_all_good _ _ _ sfx first Hpas' E2).
+           ++ now apply fs_fault_possible_quiet.
+      * rewrite Hpos.
+        rewrite (update_foreign_downloads e fs sc local paras v0 steps px) in * by assumption.
+        destruct ff.
+        -- unfold full_as_scenario in Hfull. rewrite download_file_commit.
+           destruct (e_full e) as [?|x]; [discriminate|]. now apply failed_safely_unchanged.
+        -- destruct (fs_fault_possible (s_eff sc) false) eqn:E3; [exact HE|].
+           rewrite (download_file_effquiet e fs sc vn); try assumption.
+           ++ now apply converged_intro.
+           ++ now apply fs_fault_possible_quiet.
+  - (* no local copy *)
+    assert (Hup : update_file e fs sc = download_file e fs sc).
+    { unfold Update.update_file. now rewrite Hl. }
+    rewrite Hup in *.
+    destruct (fs_fault_certain vn (s_eff sc)) eqn:Ecert.
+    { now apply HW. }
+    destruct ff.
+    + unfold full_as_scenario in Hfull. rewrite download_file_commit.
+      destruct (e_full e) as [?|x]; [discriminate|]. apply failed_safely_unchanged; [assumption|].
+      cbn. now rewrite Hl.
+    + destruct (fs_fault_possible (s_eff sc) false) eqn:E3; [exact HE|].
+      rewrite (download_file_effquiet e fs sc vn); try assumption.
+      * now apply converged_intro.
+      * now apply fs_fault_possible_quiet.
+Qed.
+
+End Intact.
+
+Definition update_meets_spec_intact_py H :=
+  update_meets_spec_intact py_isspace py_islinebreak re_d nd_val H py_lb10 digit_class_ok_str.
+
+(** Tie to the check: on a case where [agree] holds and whose world is an intact
+    publishing repository with the faults its scenario lists, [holds] is true of
+    what the IMPLEMENTATION did. *)
+Theorem agree_intact_implies_holds u paras v0 steps px pf ff :
+  let pool := pool_of u in
+  let H := pool_hash (map (@concat N) pool) in
+  let e := env_of u in
+  let fs := mkfs (option_map (deref pool) (u_local u)) None in
+  let sc := mksched (u_eff u) (u_unlink u) in
+  let k := choose_kind (concat paras) in
+  let vn := current (versions v0 steps) in
+  agree_update u = true ->
+  scenario_of u = mkscn (versions v0 steps) (f_local fs) IdxIntact pf ff (s_eff sc) (s_unlink sc) ->
+  read_index py_isspace (e_index e) = Ok (IndexFields paras) ->
+  concat paras = px_fields px ->
+  hash_avail e k = true ->
+  publishes py_isspace py_islinebreak (prefix_of k) (H k) v0 steps px = true ->
+  patches_as_scenario (H k) e pf 0 steps = true ->
+  forallb (fun j => j <? List.length steps) pf = true ->
+  full_as_scenario e vn ff = true ->
+  match f_local fs with
+  | Some local => no_collision (H k) local (versions v0 steps)
+  | None => true
+  end = true ->
+  (forall x, H k x = H k vn -> x = vn) ->
+  holds_update u = true.
+Proof.
+  intros pool H e fs sc k vn Hag Hscn Hidx Hfields Hav Hpub Hpas Hpf Hfull Hnc Hinj.
+  unfold holds_update. rewrite (agree_observe u Hag), Hscn. unfold model_update.
+  now apply (update_meets_spec_intact_py H e fs sc paras v0 steps px pf ff).
+Qed.
+
+(** * 11. update_unusable_index_downloads, in one statement *)
+
+(** a field update_file cannot use comes before any -Current field it can use *)
+Fixpoint malformed_first (is_space is_linebreak : N -> bool) (k : hkind) (fs : list field) : bool :=
+  match fs with
+  | [] => false
+  | f :: r =>
+      if malformed_field is_space is_linebreak k f then true
+      else if str_eqb (fst f) (f_current k) then false
+      else malformed_first is_space is_linebreak k r
+  end.
+
+(** absent | not a deb822 file | no -Current field | a malformed field first *)
+Definition unusable_index (is_space is_linebreak : N -> bool) (e : env) : bool :=
+  match e_index e with
+  | IdxAbsent => true
+  | IdxLines ls =>
+      match parse_pf is_space ls with
+      | Err ParseError => true
+      | Err _ => false
+      | Ok paras =>
+          let fs := concat paras in
+          let k := choose_kind fs in
+          hash_avail e k
+          && ((field_count (f_current k) fs =? 0)%nat || malformed_first is_space is_linebreak k fs)
+      end
+  end.
+
+Lemma malformed_first_split is_space is_linebreak k fs :
+  malformed_first is_space is_linebreak k fs = true ->
+  exists pre f post, fs = pre ++ f :: post /\ field_count (f_current k) pre = 0%nat
+                     /\ malformed_field is_space is_linebreak k f = true.
+Proof.
+  induction fs as [|f r IH]; [discriminate|]. cbn [malformed_first].
+  destruct (malformed_field is_space is_linebreak k f) eqn:Em.
+  - intros _. exists [], f, r. auto.
+  - destruct (str_eqb (fst f) (f_current k)) eqn:Ec; [discriminate|].
+    intros Hr. destruct (IH Hr) as (pre & g & post & E1 & E2 & E3).
+    exists (f :: pre), g, post. repeat split; [now rewrite E1| |exact E3].
+    destruct f as [a b]. rewrite field_count_cons. cbn [fst] in Ec. now rewrite Ec.
+Qed.
+
+Theorem update_unusable_index_downloads is_space is_linebreak is_digit digit_val H e fs sc :
+  unusable_index is_space is_linebreak e = true ->
+  update_file is_space is_linebreak is_digit digit_val H e fs sc = download_file e fs sc.
+Proof.
+  unfold unusable_index. intros Hu.
+  destruct (e_index e) as [|ls] eqn:Ei; [now apply update_index_absent|].
+  destruct (parse_pf is_space ls) as [paras|x] eqn:Ep.
+  - assert (Hidx : read_index is_space (e_index e) = Ok (IndexFields paras)).
+    { rewrite Ei. cbn [read_index]. now rewrite Ep. }
+    cbv zeta in Hu. apply andb_prop in Hu. destruct Hu as [Hav Hu].
+    apply orb_prop in Hu. destruct Hu as [Hu|Hu].
+    + apply Nat.eqb_eq in Hu.
+      now apply (update_file_no_current_downloads is_space is_linebreak is_digit digit_val H e paras).
+    + destruct (malformed_first_split _ _ _ _ Hu) as (pre & f & post & E1 & E2 & E3).
+      now apply (update_file_malformed_field_downloads is_space is_linebreak is_digit digit_val H
+                   e paras pre f post).
+  - destruct x; try discriminate.
+    now apply (update_index_unparseable is_space is_linebreak is_digit digit_val H e fs sc ls).
+Qed.
+
+(** "... same conclusion": with the full file served and no fault, from any local state *)
+Theorem update_unusable_index_converges is_space is_linebreak is_digit digit_val H e fs sc vn :
+  unusable_index is_space is_linebreak e = true ->
+  full_published e vn = true -> no_faults sc = true -> f_new fs = None ->
+  update_file is_space is_linebreak is_digit digit_val H e fs sc = (Ok vn, mkfs (Some vn) None).
+Proof.
+  intros Hu Hf Hq Hn. rewrite update_unusable_index_downloads by assumption.
+  now apply download_file_quiet.
+Qed.
+
+(** * 12. Every history: the mirror of a publishable history meets all premises *)
+
+Definition mirror_env (k : hkind) (Hk : list str -> str) (sha1 sha256 sha2 : bool)
+    (cur_size : str) (v0 : list str) (steps : list pstep) : env :=
+  mkenv sha1 sha256 sha2
+    (IdxLines (map Some (index_lines (mirror_index (prefix_of k) Hk cur_size v0 steps))))
+    (fun n => match mirror_patch steps n with Some c => Ok c | None => Err IOError end)
+    (Ok (current (versions v0 steps))).
+
+Section Mirror.
+Variables is_space is_linebreak : N -> bool.
+Hypothesis Hsp32 : is_space 32 = true.
+Hypothesis Hsp10 : is_space 10 = true.
+Hypothesis Hlb32 : is_linebreak 32 = false.
+Hypothesis Hlbsp : forall c, is_linebreak c = true -> is_space c = true.
+Variable k : hkind.
+Variable Hk : list str -> str.
+Variable cur_size : str.
+Notation token_ok := (token_ok is_space).
+Notation lb_free := (lb_free is_linebreak).
+Notation trimmed := (trimmed is_space).
+
+Lemma token_lb_free t : token_ok t = true -> lb_free t = true.
+Proof.
+  intros Ht. destruct (token_parts is_space t Ht) as [_ Hns].
+  unfold UpdateSpec.lb_free. rewrite forallb_forall in *. intros c Hc.
+  specialize (Hns c Hc). apply negb_true_iff in Hns. apply negb_true_iff.
+  destruct (is_linebreak c) eqn:E; [|reflexivity]. apply Hlbsp in E. congruence.
+Qed.
+
+Lemma token_no_lf t : token_ok t = true -> existsb (N.eqb 10) t = false.
+Proof.
+  intros Ht. destruct (token_parts is_space t Ht) as [_ Hns].
+  destruct (existsb (N.eqb 10) t) eqn:E; [|reflexivity].
+  apply existsb_exists in E. destruct E as (c & Hc & Ec). apply N.eqb_eq in Ec. subst c.
+  rewrite forallb_forall in Hns. specialize (Hns _ Hc). now rewrite Hsp10 in Hns.
+Qed.
+
+Lemma forallb_app {A} (f : A -> bool) a b : forallb f (a ++ b) = forallb f a && forallb f b.
+Proof. induction a; cbn; [reflexivity|]. now rewrite IHa, andb_assoc. Qed.
+
+Lemma row_lb_free a b c :
+  token_ok a = true -> token_ok b = true -> token_ok c = true ->
+  lb_free (row [32%N] a b c) = true.
+Proof.
+  intros Ha Hb Hc. unfold row, UpdateSpec.lb_free. rewrite !forallb_app.
+  pose proof (token_lb_free _ Ha) as A. pose proof (token_lb_free _ Hb) as B.
+  pose proof (token_lb_free _ Hc) as C. unfold UpdateSpec.lb_free in A, B, C.
+  rewrite A, B, C. cbn. now rewrite Hlb32.
+Qed.
+
+Lemma existsb_app' {A} (f : A -> bool) a b : existsb f (a ++ b) = existsb f a || existsb f b.
+Proof. induction a; cbn; [reflexivity|]. now rewrite IHa, orb_assoc. Qed.
+
+Lemma last_app_token (a : str) x y d : last (x ++ a ++ [y]) d = y.
+Proof. rewrite app_assoc. apply last_last. Qed.
+
+(** a value "tok sep ... sep tok" is trimmed *)
+Lemma trimmed_tokens a mid z :
+  token_ok a = true -> token_ok z = true -> existsb (N.eqb 10) mid = false ->
+  trimmed (a ++ mid ++ z) = true.
+Proof.
+  intros Ha Hz Hm. unfold UpdateSpec.trimmed.
+  destruct (token_parts is_space a Ha) as [Hane Hans].
+  destruct (token_parts is_space z Hz) as [Hzne Hzns].
+  destruct a as [|c a]; [congruence|]. cbn [app].
+  cbn [forallb] in Hans. apply andb_prop in Hans. destruct Hans as [Hc _].
+  rewrite Hc. cbn [andb].
+  assert (Hlast : is_space (last (c :: a ++ mid ++ z) c) = false).
+  { destruct (exists_last Hzne) as (z' & y & ->).
+    change (c :: a ++ mid ++ z' ++ [y]) with ((c :: a) ++ mid ++ z' ++ [y]).
+    rewrite (app_assoc mid), (app_assoc (c :: a)). rewrite last_last.
+    rewrite forallb_app in Hzns. apply andb_prop in Hzns. destruct Hzns as [_ Hy].
+    cbn in Hy. rewrite andb_true_r in Hy. now apply negb_true_iff in Hy. }
+  rewrite Hlast. cbn [negb andb].
+  change (c :: a ++ mid ++ z) with ((c :: a) ++ mid ++ z). rewrite !existsb_app'.
+  rewrite (token_no_lf _ Ha), (token_no_lf _ Hz), Hm. reflexivity.
+Qed.
+
+Lemma row_trimmed a b c :
+  token_ok a = true -> token_ok b = true -> token_ok c = true ->
+  trimmed (row [32%N] a b c) = true /\ str_eqb (row [32%N] a b c) [46%N] = false.
+Proof.
+  intros Ha Hb Hc. split.
+  - unfold row.
+    replace (a ++ [32%N] ++ b ++ [32%N] ++ c) with (a ++ ([32%N] ++ b ++ [32%N]) ++ c)
+      by (now rewrite <- !app_assoc).
+    apply trimmed_tokens; try assumption. rewrite !existsb_app'. rewrite (token_no_lf _ Hb). reflexivity.
+  - destruct (token_parts is_space a Ha) as [Hane _]. unfold row.
+    destruct a as [|x a]; [congruence|]. cbn. destruct a; cbn; now rewrite ?andb_false_r.
+Qed.
+
+Notation steps_tok steps :=
+  (forallb (fun s => token_ok (ps_name s) && token_ok (ps_hsize s) && token_ok (ps_psize s)
+                     && token_ok (Hk (ps_script s))) steps).
+
+Lemma hist_rows_facts steps : forall v,
+  steps_tok steps = true ->
+  forallb (fun v => token_ok (Hk v)) (versions v steps) = true ->
+  forallb lb_free (hist_rows Hk [32%N] v steps) = true
+  /\ nonblank (hist_rows Hk [32%N] v steps) = hist_rows Hk [32%N] v steps
+  /\ forallb (fun e => trimmed e && negb (str_eqb e [46%N])) (hist_rows Hk [32%N] v steps) = true.
+Proof.
+  induction steps as [|s r IH]; intros v Ht Hv; [auto|].
+  cbn [forallb] in Ht. apply andb_prop in Ht. destruct Ht as [Hs Ht].
+  apply andb_prop in Hs. destruct Hs as [Hs H4]. apply andb_prop in Hs. destruct Hs as [Hs H3].
+  apply andb_prop in Hs. destruct Hs as [H1 H2].
+  cbn [versions forallb] in Hv. apply andb_prop in Hv. destruct Hv as [Hv0 Hv].
+  destruct (IH _ Ht Hv) as (A & B & C). cbn [hist_rows forallb].
+  destruct (row_trimmed _ _ _ Hv0 H2 H1) as [T1 T2].
+  repeat split.
+  - now rewrite row_lb_free, A.
+  - rewrite nonblank_cons.
+    assert (is_nil_str (row [32%N] (Hk v) (ps_hsize s) (ps_name s)) = false) as ->.
+    { destruct (token_parts is_space _ Hv0) as [Hne _]. unfold row. now destruct (Hk v). }
+    cbn [negb]. now rewrite B.
+  - now rewrite T1, T2, C.
+Qed.
+
+Lemma patch_rows_facts steps :
+  steps_tok steps = true ->
+  forallb lb_free (patch_rows Hk [32%N] steps) = true
+  /\ nonblank (patch_rows Hk [32%N] steps) = patch_rows Hk [32%N] steps
+  /\ forallb (fun e => trimmed e && negb (str_eqb e [46%N])) (patch_rows Hk [32%N] steps) = true.
+Proof.
+  induction steps as [|s r IH]; intros Ht; [auto|].
+  cbn [forallb] in Ht. apply andb_prop in Ht. destruct Ht as [Hs Ht].
+  apply andb_prop in Hs. destruct Hs as [Hs H4]. apply andb_prop in Hs. destruct Hs as [Hs H3].
+  apply andb_prop in Hs. destruct Hs as [H1 H2].
+  destruct (IH Ht) as (A & B & C). unfold patch_rows in *. cbn [map forallb].
+  destruct (row_trimmed _ _ _ H4 H3 H1) as [T1 T2].
+  repeat split.
+  - now rewrite row_lb_free, A.
+  - rewrite nonblank_cons.
+    assert (is_nil_str (row [32%N] (Hk (ps_script s)) (ps_psize s) (ps_name s)) = false) as ->.
+    { destruct (token_parts is_space _ H4) as [Hne _]. unfold row. now destruct (Hk (ps_script s)). }
+    cbn [negb]. now rewrite B.
+  - now rewrite T1, T2, C.
+Qed.
+
+Lemma history_ok_parts v0 steps :
+  history_ok is_space Hk cur_size v0 steps = true ->
+  chain_ok v0 steps = true /\ distinct (map ps_name steps) = true
+  /\ steps_tok steps = true
+  /\ forallb (fun v => token_ok (Hk v)) (versions v0 steps) = true
+  /\ token_ok cur_size = true.
+Proof.
+  unfold history_ok. intros E.
+  do 4 (apply andb_prop in E; let X := fresh "X" in destruct E as [E X]). auto.
+Qed.
+
+Lemma current_token v0 steps :
+  forallb (fun v => token_ok (Hk v)) (versions v0 steps) = true ->
+  token_ok (Hk (current (versions v0 steps))) = true.
+Proof.
+  intros Hv. rewrite forallb_forall in Hv. apply Hv.
+  rewrite current_versions. apply final_in_versions.
+Qed.
+
+Theorem mirror_publishes v0 steps :
+  history_ok is_space Hk cur_size v0 steps = true ->
+  publishes is_space is_linebreak (prefix_of k) Hk v0 steps
+    (mirror_px (prefix_of k) Hk cur_size v0 steps) = true.
+Proof.
+  intros Hok. destruct (history_ok_parts _ _ Hok) as (Hc & Hd & Ht & Hv & Hcs).
+  destruct (hist_rows_facts steps v0 Ht Hv) as (A1 & A2 & _).
+  destruct (patch_rows_facts steps Ht) as (B1 & B2 & _).
+  pose proof (current_token _ _ Hv) as Hvn.
+  unfold UpdateSpec.publishes. rewrite Hc, Hd. cbn [andb].
+  unfold UpdateSpec.index_records. rewrite Ht, Hv. cbn [andb].
+  unfold current_ok, mirror_px.
+  cbn [px_fields px_sep px_cur_size px_hist_entries px_patch_entries].
+  rewrite Hvn, Hcs.
+  assert (Hsep : sep_ok is_space [32%N] = true) by (cbn; now rewrite Hsp32).
+  rewrite Hsep. cbn [andb forallb]. rewrite A1, B1.
+  rewrite !nonblank_cons. cbn [is_nil_str negb]. rewrite A2, B2, !strs_eqb_refl.
+  unfold mirror_index, rf_field, entries_value.
+  cbn [map concat app rf_name rf_first rf_conts join intersperse_concat].
+  destruct k; cbn [prefix_of]; unfold field_is, field_count, fname;
+    cbn [forallb filter fst snd]; vm_compute (str_eqb (dec _ ++ dec _) (dec _ ++ dec _));
+    cbn [negb orb andb List.length app Nat.leb Nat.eqb]; now rewrite !str_eqb_refl.
+Qed.
+
+Theorem mirror_text_ok v0 steps :
+  history_ok is_space Hk cur_size v0 steps = true ->
+  index_text_ok is_space (mirror_index (prefix_of k) Hk cur_size v0 steps) = true.
+Proof.
+  intros Hok. destruct (history_ok_parts _ _ Hok) as (Hc & Hd & Ht & Hv & Hcs).
+  destruct (hist_rows_facts steps v0 Ht Hv) as (_ & _ & A3).
+  destruct (patch_rows_facts steps Ht) as (_ & _ & B3).
+  pose proof (current_token _ _ Hv) as Hvn.
+  unfold index_text_ok, mirror_index. cbn [forallb negb andb].
+  unfold UpdateSpec.rfield_ok. cbn [rf_name rf_first rf_conts forallb].
+  rewrite A3, B3.
+  assert (trimmed (Hk (current (versions v0 steps)) ++ [32%N] ++ cur_size) = true) as ->.
+  { apply trimmed_tokens; try assumption. reflexivity. }
+  assert (trimmed [] = true) as -> by reflexivity.
+  destruct k; reflexivity.
+Qed.
+
+Lemma mirror_choose_kind v0 steps :
+  choose_kind (concat (map (map rf_field) (mirror_index (prefix_of k) Hk cur_size v0 steps))) = k.
+Proof.
+  unfold mirror_index, choose_kind, rf_field.
+  cbn [map concat app existsb fst rf_name]. destruct k; reflexivity.
+Qed.
+
+Lemma mirror_patch_served steps s :
+  distinct (map ps_name steps) = true -> In s steps ->
+  mirror_patch steps (ps_name s) = Some (ps_script s).
+Proof.
+  unfold mirror_patch. induction steps as [|t r IH]; intros Hd Hin; [destruct Hin|].
+  cbn [map distinct] in Hd. apply andb_prop in Hd. destruct Hd as [Hn Hd].
+  cbn [List.find]. destruct (str_eqb (ps_name t) (ps_name s)) eqn:E.
+  - destruct Hin as [->|Hin]; [reflexivity|]. exfalso.
+    apply negb_true_iff in Hn. apply str_eqb_eq in E.
+    assert (existsb (str_eqb (ps_name t)) (map ps_name r) = true) as Hx; [|congruence].
+    apply existsb_exists. exists (ps_name s). split; [now apply in_map|].
+    rewrite E. apply str_eqb_refl.
+  - destruct Hin as [->|Hin]; [now rewrite str_eqb_refl in E|]. now apply IH.
+Qed.
+
+End Mirror.
+
+Lemma py_lb_is_space c : py_islinebreak c = true -> py_isspace c = true.
+Proof.
+  unfold py_islinebreak. intros E. apply existsb_exists in E. destruct E as (x & Hx & Ex).
+  apply N.eqb_eq in Ex. subst x. unfold py_linebreaks in Hx. cbn [In] in Hx.
+  repeat (destruct Hx as [<-|Hx]; [reflexivity|]). destruct Hx.
+Qed.
+
+Section AllHistories.
+Variable H : hkind -> list str -> str.
+Variable k : hkind.
+Variable cur_size : str.
+Variables (v0 : list str) (steps : list pstep).
+Hypothesis Hok : history_ok py_isspace (H k) cur_size v0 steps = true.
+Let vn := current (versions v0 steps).
+Let rps := mirror_index (prefix_of k) (H k) cur_size v0 steps.
+Let px := mirror_px (prefix_of k) (H k) cur_size v0 steps.
+
+Lemma mirror_kind : choose_kind (concat (map (map rf_field) rps)) = k.
+Proof. apply mirror_choose_kind. Qed.
+
+Lemma mirror_kind' : choose_kind (@concat field (map (map rf_field) rps)) = k.
+Proof. exact mirror_kind. Qed.
+
+Lemma mirror_pub :
+  publishes py_isspace py_islinebreak (prefix_of k) (H k) v0 steps px = true.
+Proof.
+  apply mirror_publishes; try reflexivity; [apply py_lb_is_space|exact Hok].
+Qed.
+
+Lemma mirror_txt : index_text_ok py_isspace rps = true.
+Proof. apply (mirror_text_ok py_isspace py_islinebreak); try reflexivity; [apply py_lb_is_space|exact Hok]. Qed.
+
+Lemma mirror_read e :
+  e_index e = IdxLines (map Some (index_lines rps)) ->
+  read_index py_isspace (e_index e) = Ok (IndexFields (map (map rf_field) rps)).
+Proof. intros ->. cbn [read_index]. now rewrite (index_text_parses_py rps mirror_txt). Qed.
+
+(** update_converges for EVERY publishable history: the premises about the index
+    are theorems about the mirror, not hypotheses *)
+Theorem update_converges_all_histories sha1 sha256 sha2 local sc :
+  let e := mirror_env k (H k) sha1 sha256 sha2 cur_size v0 steps in
+  hash_avail e k = true ->
+  match local with
+  | Some l => no_collision (H k) l (versions v0 steps)
+  | None => true
+  end = true ->
+  no_faults sc = true ->
+  update_file py_isspace py_islinebreak re_d nd_val H e (mkfs local None) sc
+  = (Ok vn, mkfs (Some vn) None).
+Proof.
+  intros e Hav Hnc Hq.
+  pose proof (update_converges_text_py H e (mkfs local None) sc rps v0 steps px) as T.
+  cbv zeta in T. rewrite mirror_kind in T. apply T; try reflexivity; try assumption.
+  - exact mirror_txt.
+  - exact mirror_pub.
+  - unfold patches_published. apply forallb_forall. intros s Hs. cbn [e_patch e mirror_env].
+    destruct (history_ok_parts py_isspace _ _ _ _ Hok) as (_ & Hd & _).
+    rewrite (mirror_patch_served steps s Hd Hs). cbn. apply strs_eqb_refl.
+  - unfold full_published. cbn. apply strs_eqb_refl.
+Qed.
+
+(** the whole verdict table for EVERY publishable history: any environment that
+    serves the mirror's Index, with any set of bad patches, the full file there or
+    not, any fault schedule, any local state *)
+Theorem update_meets_spec_all_histories e fs sc pf ff :
+  let s := mkscn (versions v0 steps) (f_local fs) IdxIntact pf ff (s_eff sc) (s_unlink sc) in
+  f_new fs = None ->
+  e_index e = IdxLines (map Some (index_lines rps)) ->
+  hash_avail e k = true ->
+  patches_as_scenario (H k) e pf 0 steps = true ->
+  forallb (fun j => j <? List.length steps) pf = true ->
+  full_as_scenario e vn ff = true ->
+  match f_local fs with
+  | Some local => no_collision (H k) local (versions v0 steps)
+  | None => true
+  end = true ->
+  (forall x, H k x = H k vn -> x = vn) ->
+  property_holds s (observe (update_file py_isspace py_islinebreak re_d nd_val H e fs sc)) = true.
+Proof.
+  intros s Hn Hidx Hav Hpas Hpf Hfull Hnc Hinj.
+  pose proof (update_meets_spec_intact_py H e fs sc (map (map rf_field) rps) v0 steps px pf ff) as T.
+  cbv zeta in T. rewrite mirror_kind' in T. apply T; try assumption; try reflexivity.
+  - now apply mirror_read.
+  - exact mirror_pub.
+Qed.
+
+End AllHistories.
+
+(** * 13. A malformed field anywhere: full download unless a -Current field before
+    it already said "up to date" *)
+
+(** this field is not a -Current field that records the digest [lh] *)
+Definition not_uptodate (is_space : N -> bool) (k : hkind) (lh : str) (f : field) : bool :=
+  negb (str_eqb (fst f) (f_current k))
+  || match resplit is_space (snd f) with
+     | [rh; _] => negb (str_eqb lh rh)
+     | _ => true
+     end.
+
+Section Unusable2.
+Variables is_space is_linebreak is_digit : N -> bool.
+Variable digit_val : N -> N.
+Variable H : hkind -> list str -> str.
+Notation update_with_index := (update_with_index is_space is_linebreak is_digit digit_val H).
+Notation update_file := (update_file is_space is_linebreak is_digit digit_val H).
+Notation run_fields := (run_fields is_space is_linebreak).
+
+Lemma run_fields_not_uptodate k lh fs : forall st,
+  forallb (not_uptodate is_space k lh) fs = true ->
+  run_fields k lh fs st <> UpToDate.
+Proof.
+  induction fs as [|[name value] fs IH]; intros st Hall; [discriminate|].
+  cbn [forallb] in Hall. apply andb_prop in Hall. destruct Hall as [Hf Hall].
+  unfold not_uptodate in Hf. cbn [fst snd] in Hf.
+  cbn [Update.run_fields Update.step_field].
+  destruct (str_eqb name (f_current k)).
+  - cbn [negb orb] in Hf.
+    destruct (resplit is_space value) as [|rh [|x [|? ?]]]; try discriminate.
+    apply negb_true_iff in Hf. rewrite Hf. now apply IH.
+  - destruct (str_eqb name (f_history k)).
+    + destruct (hist_entries _ _ _ _); [now apply IH|discriminate].
+    + destruct (str_eqb name (f_patches k)).
+      * destruct (patch_entries _ _ _); [now apply IH|discriminate].
+      * now apply IH.
+Qed.
+
+Theorem update_malformed_field_downloads_gen e paras pre f post lines fs sc :
+  let k := choose_kind (concat paras) in
+  hash_avail e k = true ->
+  concat paras = pre ++ f :: post ->
+  forallb (not_uptodate is_space k (H k lines)) pre = true ->
+  malformed_field is_space is_linebreak k f = true ->
+  update_with_index e (IndexFields paras) lines fs sc = download_file e fs sc.
+Proof.
+  intros k Hav Hsplit Hpre Hm. unfold Update.update_with_index. fold k. rewrite Hav. cbn [negb].
+  rewrite Hsplit, run_fields_app.
+  pose proof (run_fields_not_uptodate k (H k lines) pre (mkst None [] []) Hpre) as Hr.
+  destruct (run_fields k (H k lines) pre _) as [st| |]; [|congruence|reflexivity].
+  cbn [Update.run_fields]. now rewrite step_field_malformed.
+Qed.
+
+Theorem update_file_malformed_field_downloads_gen e paras pre f post lines fs sc :
+  let k := choose_kind (concat paras) in
+  f_local fs = Some lines ->
+  read_index is_space (e_index e) = Ok (IndexFields paras) ->
+  hash_avail e k = true ->
+  concat paras = pre ++ f :: post ->
+  forallb (not_uptodate is_space k (H k lines)) pre = true ->
+  malformed_field is_space is_linebreak k f = true ->
+  update_file e fs sc = download_file e fs sc.
+Proof.
+  intros k Hl Hi. rewrite (update_file_with_index is_space is_linebreak is_digit digit_val H
+                             e fs sc lines _ Hl Hi).
+  now apply update_malformed_field_downloads_gen.
+Qed.
+
+End Unusable2.
